@@ -217,6 +217,9 @@ func Load(repo string, extraSpecs []string) (*Ctx, error) {
 			safeSort(ctx.reg, seen[k])
 		}
 	}
+	if err := ctx.InstallAxioms(); err != nil {
+		return nil, err
+	}
 	return ctx, nil
 }
 
